@@ -86,7 +86,7 @@ def run(ctx):
     cases = []
     for passes in PATTERNS:
         cases.append(('pattern', passes))
-    for t in range(ctx.pick(60, 600)):
+    for t in range(ctx.pick(60, 3000)):
         np_ = rng.choice([1, 1, 2, 3])
         passes = []
         for p in range(np_):
